@@ -25,23 +25,29 @@ Proof. unfold same_rest. intuition congruence. Qed.
 Lemma is_nil_false (b : bytes) : is_nil b = false <-> b <> [].
 Proof. destruct b; cbn; split; congruence. Qed.
 
-Lemma sock_recv_timeout rs n n' :
-  wf_net n = true -> sock_recv rs n = (RTimeout, n') ->
-  flat n = flat n' /\ timeouts n = S (timeouts n') /\ wf_net n' = true /\ net_size n' < net_size n.
+Lemma sock_recv_intr rs n e n' :
+  wf_net n = true -> sock_recv rs n = (RIntr e, n') ->
+  flat n = flat n' /\ intrs n = e :: intrs n' /\ wf_net n' = true /\ net_size n' < net_size n.
 Proof.
-  destruct n as [|[c|] r]; cbn; intros W H.
+  destruct n as [|[c| |c] r]; cbn; intros W H.
   - discriminate.
   - destruct (Nat.leb (length c) rs); discriminate.
   - inversion H; subst. repeat split; auto.
+  - inversion H; subst. repeat split; auto.
+Qed.
+
+Lemma intrs_head n e l : intrs n = e :: l -> is_intr_exn e = true.
+Proof.
+  induction n as [|[c| |c] r IH]; cbn; intro H; try discriminate; auto; inversion H; reflexivity.
 Qed.
 
 Lemma sock_recv_data rs n b n' :
   wf_net n = true -> 1 <= rs -> sock_recv rs n = (RData b, n') ->
   (b = [] /\ n = [] /\ n' = []) \/
-  (b <> [] /\ flat n = b ++ flat n' /\ timeouts n' = timeouts n /\ wf_net n' = true /\
+  (b <> [] /\ flat n = b ++ flat n' /\ intrs n' = intrs n /\ wf_net n' = true /\
    net_size n' < net_size n).
 Proof.
-  destruct n as [|[c|] r]; cbn; intros W R H.
+  destruct n as [|[c| |c] r]; cbn; intros W R H.
   - inversion H; subst. left. auto.
   - apply andb_true_iff in W as [Wc Wr]. apply negb_true_iff, is_nil_false in Wc.
     destruct (Nat.leb (length c) rs) eqn:E; inversion H; subst; right.
@@ -52,6 +58,7 @@ Proof.
       * cbn. rewrite Wr, andb_true_r. apply negb_true_iff, is_nil_false.
         intro Hn. apply (f_equal (@length N)) in Hn. rewrite skipn_length in Hn. cbn in Hn. lia.
       * cbn. rewrite skipn_length. lia.
+  - discriminate.
   - discriminate.
 Qed.
 
@@ -65,12 +72,12 @@ Definition ru_post (d : bytes) (lim : limit) (recvd : bytes) (n : net) (r : ru_r
   match r with
   | RuFound off recvd' =>
       (exists pre, recvd' = recvd ++ pre /\ flat n = pre ++ flat n') /\
-      timeouts n' = timeouts n /\
+      intrs n' = intrs n /\
       first_occ d (lim_take lim rem) = Some off /\ off + length d <= length recvd'
   | RuExn e recvd' =>
       (exists pre, recvd' = recvd ++ pre /\ flat n = pre ++ flat n') /\
-      ((e = Timeout /\ timeouts n = S (timeouts n')) \/
-       (timeouts n' = timeouts n /\ first_occ d (lim_take lim rem) = None /\
+      (intrs n = e :: intrs n' \/
+       (intrs n' = intrs n /\ first_occ d (lim_take lim rem) = None /\
         e = (if lim_exceeded lim rem then MessageTooLong else ConnectionClosed)))
   end.
 
@@ -110,7 +117,7 @@ Proof.
               rewrite Ht in H. exact H.
            ++ split; [exists ((x :: b) ++ pre); rewrite P1, Hf, P2, <- !app_assoc; auto|].
               rewrite Ht in H. exact H.
-      * inversion H; subst. destruct (sock_recv_timeout _ _ _ W Er) as (Hf & Ht & W1 & _).
+      * inversion H; subst. destruct (sock_recv_intr _ _ _ _ W Er) as (Hf & Ht & W1 & _).
         split; [assumption|]. split.
         -- exists []. rewrite app_nil_r. auto.
         -- left. auto.
@@ -119,8 +126,8 @@ Qed.
 (* what one receive-side call guarantees *)
 Definition recv_post (s : bs) (o : op) (out : outcome) (s' : bs) : Prop :=
   wf_net (nt s') = true /\ same_rest s s' /\ (exists pre, flat (nt s) = pre ++ flat (nt s')) /\
-  ((out = OExn Timeout /\ remaining s' = remaining s /\ timeouts (nt s) = S (timeouts (nt s')))
-   \/ (is_timeout out = false /\ timeouts (nt s') = timeouts (nt s) /\
+  ((exists e, out = OExn e /\ remaining s' = remaining s /\ intrs (nt s) = e :: intrs (nt s'))
+   \/ (is_interrupt out = false /\ intrs (nt s') = intrs (nt s) /\
        match o with
        | Recv n => exists dd, out = OBytes dd /\ spec_recv_ok (remaining s) n dd = true /\
                               remaining s' = skipn (length dd) (remaining s)
@@ -153,8 +160,8 @@ Proof.
     assert (Hrem : recvd' ++ flat n' = rbuf s ++ flat (nt s)).
     { rewrite P1, P2, app_assoc. reflexivity. }
     split; [assumption|]. split; [apply same_rest_set_recv|]. split; [eauto|].
-    destruct E as [[-> Ht]|(Ht & Ho & ->)].
-    + left. auto.
+    destruct E as [Ht|(Ht & Ho & ->)].
+    + left. exists e. auto.
     + right. split; [destruct (lim_exceeded _ _); reflexivity|]. split; [assumption|].
       cbn [spec_framing]. rewrite Ho, Hrem. reflexivity.
 Qed.
@@ -166,11 +173,11 @@ Definition rs_post (size : limit) (acc nxt : bytes) (n : net) (r : rs_res) (n' :
   | RsDone acc' total' nxt' =>
       acc' ++ nxt' = acc ++ nxt ++ pre /\ total' = length acc' + length nxt' /\ nxt' <> [] /\
       reached size total' = true /\ (reached size (length acc') = false \/ acc' = []) /\
-      timeouts n' = timeouts n
+      intrs n' = intrs n
   | RsExn e acc' =>
       acc' = acc ++ nxt ++ pre /\
-      ((e = Timeout /\ timeouts n = S (timeouts n')) \/
-       (e = ConnectionClosed /\ n' = [] /\ timeouts n' = timeouts n /\
+      (intrs n = e :: intrs n' \/
+       (e = ConnectionClosed /\ n' = [] /\ intrs n' = intrs n /\
         (reached size (length acc') = false \/ acc' = [])))
   end.
 
@@ -215,7 +222,7 @@ Proof.
            ++ destruct H as (H1 & H2). split.
               ** rewrite H1, <- !app_assoc. reflexivity.
               ** rewrite Ht in H2. exact H2.
-      * inversion H; subst. destruct (sock_recv_timeout _ _ _ W Er) as (Hf & Ht & W1 & _).
+      * inversion H; subst. destruct (sock_recv_intr _ _ _ _ W Er) as (Hf & Ht & W1 & _).
         split; [assumption|]. exists []. cbn [app]. rewrite !app_nil_r. repeat split; auto.
 Qed.
 
@@ -223,8 +230,8 @@ Qed.
 Definition size_post (s : bs) (size : limit) (out : outcome) (s' : bs) : Prop :=
   let rem := remaining s in
   wf_net (nt s') = true /\ same_rest s s' /\ (exists pre, flat (nt s) = pre ++ flat (nt s')) /\
-  ((out = OExn Timeout /\ remaining s' = rem /\ timeouts (nt s) = S (timeouts (nt s')))
-   \/ (timeouts (nt s') = timeouts (nt s) /\
+  ((exists e, out = OExn e /\ remaining s' = rem /\ intrs (nt s) = e :: intrs (nt s'))
+   \/ (intrs (nt s') = intrs (nt s) /\
        match size with
        | Some k =>
            if Nat.leb k (length rem) && negb (is_nil rem)
@@ -242,22 +249,22 @@ Proof.
   assert (Hfirst : (exists nxt n1,
             (match rbuf s with [] => sock_recv (recvsize s) (nt s) | rb => (RData rb, nt s) end)
             = (RData nxt, n1) /\ wf_net n1 = true /\ (nxt = [] -> n1 = []) /\
-            remaining s = nxt ++ flat n1 /\ timeouts n1 = timeouts (nt s) /\
+            remaining s = nxt ++ flat n1 /\ intrs n1 = intrs (nt s) /\
             (exists pre, flat (nt s) = pre ++ flat n1))
-          \/ exists n1,
+          \/ exists e1 n1,
             (match rbuf s with [] => sock_recv (recvsize s) (nt s) | rb => (RData rb, nt s) end)
-            = (RTimeout, n1) /\ rbuf s = [] /\ wf_net n1 = true /\ flat (nt s) = flat n1 /\
-            timeouts (nt s) = S (timeouts n1)).
+            = (RIntr e1, n1) /\ rbuf s = [] /\ wf_net n1 = true /\ flat (nt s) = flat n1 /\
+            intrs (nt s) = e1 :: intrs n1).
   { unfold remaining. destruct (rbuf s) as [|x rb] eqn:Erb.
     - destruct (sock_recv (recvsize s) (nt s)) as [[b|] n1] eqn:Er.
       + left. exists b, n1. split; [reflexivity|].
         destruct (sock_recv_data _ _ _ _ W R Er) as [(Hb & Hn & Hn1)|(Hb & Hf & Ht & W1 & Hs)].
         * subst. rewrite Hn. repeat split; auto. exists []. reflexivity.
         * repeat split; auto; try congruence. exists b. assumption.
-      + right. exists n1. destruct (sock_recv_timeout _ _ _ W Er) as (Hf & Ht & W1 & _).
+      + right. exists e, n1. destruct (sock_recv_intr _ _ _ _ W Er) as (Hf & Ht & W1 & _).
         repeat split; auto.
     - left. exists (x :: rb), (nt s). repeat split; auto; try congruence. exists []. reflexivity. }
-  destruct Hfirst as [(nxt & n1 & E1 & W1 & Hc & Hrem & Ht1 & (pre1 & Hp1))|(n1 & E1 & Erb & W1 & Hf & Ht)];
+  destruct Hfirst as [(nxt & n1 & E1 & W1 & Hc & Hrem & Ht1 & (pre1 & Hp1))|(e1 & n1 & E1 & Erb & W1 & Hf & Ht)];
     rewrite E1 in H.
   - destruct (rs_loop _ _ _ _ _ _ _) as [r n2] eqn:E2.
     apply rs_loop_ok in E2; auto; try (destruct (is_nil nxt); lia).
@@ -287,8 +294,8 @@ Proof.
       * rewrite skipn_app. rewrite (skipn_all2 (n := k)) by lia. cbn [app].
         rewrite skipn_app_le by lia. reflexivity.
     + destruct E2 as (H1 & E2). cbn [app] in H1.
-      destruct E2 as [[-> Ht]|(-> & Hn2 & Ht & Hr)].
-      * left. repeat split; try congruence. rewrite H1, P, app_assoc. reflexivity.
+      destruct E2 as [Ht|(-> & Hn2 & Ht & Hr)].
+      * left. exists e. repeat split; try congruence. rewrite H1, P, app_assoc. reflexivity.
       * right. split; [congruence|]. subst n2. cbn [flat] in P. rewrite app_nil_r in P.
         assert (Hacc : acc = nxt ++ flat n1) by (rewrite H1, P; reflexivity).
         rewrite <- Hacc. destruct size as [k|]; [|auto].
@@ -297,7 +304,7 @@ Proof.
         cbn. apply andb_false_r.
   - inversion H; subst; clear H. unfold size_post, remaining. cbn [rbuf nt set_recv].
     split; [assumption|]. split; [apply same_rest_set_recv|]. split; [exists []; assumption|].
-    left. rewrite Erb. cbn [app]. auto.
+    left. exists e1. rewrite Erb. cbn [app]. auto.
 Qed.
 
 Lemma recv_size_ok s k out s' :
@@ -328,8 +335,8 @@ Proof.
   - apply Nat.leb_gt in E. destruct (recv_size s k) as [o1 s1] eqn:E1.
     pose proof E1 as E1'. apply recv_size_lim_ok in E1'; auto.
     destruct E1' as (W' & SR & Suf & H1). unfold recv_post.
-    destruct H1 as [(-> & Hrem & Ht)|(Ht & H1)].
-    + inversion H; subst; clear H. repeat (split; [assumption|]). left. auto.
+    destruct H1 as [(e & -> & Hrem & Ht)|(Ht & H1)].
+    + inversion H; subst; clear H. repeat (split; [assumption|]). left. exists e. auto.
     + destruct (Nat.leb k (length (remaining s)) && negb (is_nil (remaining s))) eqn:Ec.
       * destruct H1 as [-> Hrem]. inversion H; subst; clear H. cbn [nt set_recv].
         split; [assumption|]. split; [exact SR|]. split; [assumption|]. right.
@@ -355,8 +362,10 @@ Proof.
   intros W R H. unfold recv_close in H.
   destruct (recv_size_lim s (option_map S (resolve (maxsize s) m))) as [o1 s1] eqn:E1.
   apply recv_size_lim_ok in E1; auto. destruct E1 as (W' & SR & Suf & H1).
-  unfold recv_post. destruct H1 as [(-> & Hrem & Ht)|(Ht & H1)].
-  - inversion H; subst; clear H. repeat (split; [assumption|]). left. auto.
+  unfold recv_post. destruct H1 as [(e & -> & Hrem & Ht)|(Ht & H1)].
+  - pose proof (intrs_head _ _ _ Ht) as Hi.
+    destruct e; try discriminate Hi; inversion H; subst; clear H; repeat (split; [assumption|]);
+      left; eexists; auto.
   - cbn [spec_framing]. destruct (resolve (maxsize s) m) as [mx|] eqn:Em; cbn [option_map] in H1.
     + cbn [lim_exceeded].
       destruct (Nat.leb (S mx) (length (remaining s)) && negb (is_nil (remaining s))) eqn:Ec.
@@ -419,9 +428,9 @@ Proof.
               ** rewrite is_prefix_self. rewrite (proj2 (Nat.leb_le _ _)) by assumption.
                  destruct b; [congruence|]. reflexivity.
               ** rewrite skipn_app_le by lia. rewrite skipn_all. reflexivity.
-      * inversion H; subst; clear H. destruct (sock_recv_timeout _ _ _ W Er) as (Hf & Ht & W1 & _).
+      * inversion H; subst; clear H. destruct (sock_recv_intr _ _ _ _ W Er) as (Hf & Ht & W1 & _).
         cbn [rbuf nt set_recv]. split; [assumption|]. split; [apply same_rest_set_recv|].
-        split; [exists []; assumption|]. left. cbn [app]. auto.
+        split; [exists []; assumption|]. left. exists e. cbn [app]. auto.
     + inversion H; subst; clear H. cbn [rbuf nt set_recv].
       split; [assumption|]. split; [apply same_rest_set_recv|]. split; [exists []; reflexivity|].
       right. repeat split. exists (x :: rb). split; [reflexivity|]. split.
